@@ -129,7 +129,8 @@ func checkNewCall(
 	constructors util.TypeAssociationRegistry,
 	currentFunction string,
 ) *ConstructorViolation {
-	ident, ok := call.Fun.(*ast.Ident)
+	// Parentheses around the callee do not change what is called: (new)(T)
+	ident, ok := ast.Unparen(call.Fun).(*ast.Ident)
 	if !ok || ident.Name != "new" {
 		return nil
 	}
